@@ -79,6 +79,9 @@ type lifeW struct {
 
 	track, flood, ctxDial bool
 	relay                 bool // another goroutine fills the output queue while a dial is in progress
+	serverGen             int  // counts the harness's own writes to Config().Server
+	inConnect             int  // Connect calls of the harness in progress
+	noServerProbe         bool // a task has emptied Config().Server for its attempt
 	pingFreq              time.Duration
 	nick                  string
 	ncycles               int
@@ -727,12 +730,18 @@ func (w *lifeW) connect() {
 		}
 		defer func() { e.DialWait = nil }()
 	}
+	// (not while another task's "no server configured" attempt has the field
+	// emptied: configuring and connecting are the application's to keep apart)
+	simrt.Block("life.connect", "another task's attempt without a server to finish", func() bool { return !w.noServerProbe })
+	w.inConnect++
 	if w.g.S.Choose(2) == 0 {
 		err = w.c.ConnectContext(ctx)
 	} else {
+		w.serverGen++
 		w.c.Config().Server = "irc.sim"
 		err = w.c.ConnectToContext(ctx, "irc.sim")
 	}
+	w.inConnect--
 	if err != nil {
 		e.Violation("connect-failed", "Connect #%d failed although the dialer succeeded: %v", n, err)
 		return
@@ -755,10 +764,33 @@ func (w *lifeW) failingConnect(kind int) {
 	var err error
 	switch kind {
 	case 0:
+		if w.inConnect > 0 || w.noServerProbe {
+			// another task's Connect is in flight: emptying the field under it is
+			// the application's own race (that call may read the empty field after
+			// its check, complete it to ":6667" and store that), so not now
+			e.S.Count("probe.no-server-attempt-skipped-while-another-connect-is-in-flight")
+			return
+		}
 		old := w.c.Config().Server
+		w.serverGen++
+		gen := w.serverGen
+		w.noServerProbe = true
 		w.c.Config().Server = ""
+		w.inConnect++
 		err = w.c.Connect()
+		w.inConnect--
+		overlapped := w.serverGen != gen
+		w.serverGen++
 		w.c.Config().Server = old
+		w.noServerProbe = false
+		if overlapped {
+			// another task of the harness wrote Config().Server while this call was
+			// in progress (its own Connect to "irc.sim", or a probe like this one):
+			// what the library saw was not "no server configured" any more - the
+			// application's race, not the library's - so this attempt proves nothing
+			e.S.Count("probe.no-server-attempt-overlapped-by-another-connect")
+			return
+		}
 		// (only dials made on this task: another task's redundant Connect may be
 		// dialling at the same time, and may even have read the emptied field)
 		self := ""
@@ -774,7 +806,9 @@ func (w *lifeW) failingConnect(kind int) {
 		e.S.Count("fault.connect-without-server")
 	case 1:
 		e.DialErr = func(n int, addr string) error { return errors.New("sim: connection refused") }
+		w.inConnect++
 		err = w.c.Connect()
+		w.inConnect--
 		e.DialErr = nil
 	case 2:
 		ctx, cancel := context.WithCancel(context.Background())
@@ -798,13 +832,17 @@ func (w *lifeW) failingConnect(kind int) {
 				cancel()
 			})
 		}
+		w.inConnect++
 		err = w.c.ConnectContext(ctx)
+		w.inConnect--
 		e.DialWait = nil
 		cancel()
 	case 3:
 		w.c.Config().SSL = true
 		w.tlsFail = true
+		w.inConnect++
 		err = w.c.Connect()
+		w.inConnect--
 		w.tlsFail = false
 		w.c.Config().SSL = false
 		e.S.Count("fault.tls-handshake-fails")
@@ -835,7 +873,9 @@ func (w *lifeW) dupConnect(cy *lifeCycle) {
 	e.S.Count("fault.connect-while-connected")
 	e.S.Spawn(fmt.Sprintf("dup-connect%d", cy.no), func() {
 		e.S.Logf("Connect called while connection %d is up", cy.no)
+		w.inConnect++
 		cy.dupErr = w.c.Connect()
+		w.inConnect--
 		cy.dupDone = true
 	})
 	if !simrt.BlockFor("life.server", "Connect-while-connected to return", 10*time.Minute, func() bool { return cy.dupDone }) {
